@@ -339,6 +339,7 @@ def run_check(pid, tier, seed, jobs):
 
     # violations: minimise and write replay files
     violation_lines = []
+    unconfirmed = []
     if failures:
         os.makedirs(os.path.join(REPLAY_DIR, pid), exist_ok=True)
     budget = float(os.environ.get('VERIF_SHRINK_S', '20' if tier == 'quick' else '90'))
@@ -353,6 +354,19 @@ def run_check(pid, tier, seed, jobs):
                 reproducible = False
         except Exception:
             reproducible = False
+        if not reproducible and getattr(mod, 'REALTIME', False):
+            # wall-clock check: a failure that three more runs of the same case do not show again is machine load, not a violation
+            for _ in range(3):
+                try:
+                    if sig in _replay_sigs(mod, case):
+                        reproducible = True
+                        break
+                except Exception:
+                    pass
+            if not reproducible:
+                unconfirmed.append({'signature': sig, 'message': msg[:300], 'count': cnt})
+                sys.stderr.write('  UNCONFIRMED (wall-clock check, did not reproduce in 4 replays) %s x%d: %s\n' % (sig, cnt, msg[:200]))
+                continue
         name = hashlib.sha1(sig.encode()).hexdigest()[:12] + '.json'
         path = os.path.join(REPLAY_DIR, pid, name)
         with open(path, 'w') as f:
@@ -385,7 +399,8 @@ def run_check(pid, tier, seed, jobs):
         'coverage': coverage,
         'assumptions': list(mod.ASSUMPTIONS),
         'wall_s': round(wall, 2),
-        'violations': len(failures),
+        'violations': len(violation_lines),
+        'unconfirmed_wall_clock_failures': unconfirmed,
         'known_findings_reported': [l.split(' ', 2)[2] for l in known_lines],
     }
     os.makedirs(EVIDENCE_DIR, exist_ok=True)
@@ -403,8 +418,8 @@ def run_check(pid, tier, seed, jobs):
     print('%s %s seed=%d: %d cases, %d distinct non-trivial, %d excluded-known, '
           '%d violation signature(s), %.1fs'
           % (pid, tier, seed, evaluations, len(nontrivial),
-             sum(excluded.values()), len(failures), wall))
-    if failures:
+             sum(excluded.values()), len(violation_lines), wall))
+    if violation_lines:
         return 1
     if evaluations == 0 or len(nontrivial) < 2:
         sys.stderr.write('HARNESS ERROR: vacuous run\n')
